@@ -86,7 +86,7 @@ theorem invL_step {fx : Fixes} {cfg : Cfg} {sym lw : Nat} {line : List Sec} (st 
     · have := isLoneNl_width hnl (hsub hs)
       simp only [rowWidth_append, rowWidth, hlen, this]; omega
     · intro h; simp at h; rw [hl] at h; cases h
-  | split0 style gs rest hs hl hge hnf hw hns hnfo =>
+  | split0 style gs rest hs hl hge hnf hns hw =>
     refine ⟨?_, by simp [rowWidth], ?_, ?_, by rw [← hs]; exact hnlz⟩
     · rw [← htext, hs]
       simp only [stripResult_append, stripResult_single_concat]
@@ -95,16 +95,16 @@ theorem invL_step {fx : Fixes} {cfg : Cfg} {sym lw : Nat} {line : List Sec} (st 
       have := not_limit_lt hl hp
       simp; omega
     · intro _; simp
-  | splitk style gs rest hs hl hge hnf hw =>
+  | splitk style gs rest hs hl hge hnf hns hw =>
     refine ⟨?_, by simp [rowWidth], ?_, ?_, ?_⟩
     · rw [← htext, hs]
       simp only [stripResult_append]
-      have : st.curr ++ [(style, (takeFitF fx st.len (widthLeft cfg lw st.len gs) gs).1), (sym, [cfg.leftSym])]
-           = (st.curr ++ [(style, (takeFitF fx st.len (widthLeft cfg lw st.len gs) gs).1)]) ++ [(sym, [cfg.leftSym])] := by simp
+      have : st.curr ++ [(style, (takeFit (widthLeft cfg lw st.len gs) gs).1), (sym, [cfg.leftSym])]
+           = (st.curr ++ [(style, (takeFit (widthLeft cfg lw st.len gs) gs).1)]) ++ [(sym, [cfg.leftSym])] := by simp
       rw [this, stripResult_single_concat]
       simp only [explode_append, explode_cons, explode_nil, List.append_nil, List.append_assoc]
       congr 2
-      rw [← List.append_assoc, ← List.map_append, takeFitF_append]
+      rw [← List.append_assoc, ← List.map_append, takeFit_append]
     · intro hp
       have := not_limit_lt hl hp
       simp; omega
@@ -114,7 +114,7 @@ theorem invL_step {fx : Fixes} {cfg : Cfg} {sym lw : Nat} {line : List Sec} (st 
       cases hsec with
       | inl h1 =>
         subst h1
-        exact hnlz (style, gs) (by rw [hs]; simp) g (takeFitF_snd_subset _ _ _ _ g hg)
+        exact hnlz (style, gs) (by rw [hs]; simp) g (takeFit_snd_subset _ _ g hg)
       | inr h2 => exact hsub hs sec h2 g hg
 
 end Wrap
